@@ -32,6 +32,7 @@
 
 //! Builder for decision table evaluators.
 
+use crate::errors::{err_decision_table_rule_size_mismatch, err_decision_table_without_output};
 use dmntk_common::Result;
 use dmntk_feel::context::FeelContext;
 use dmntk_feel::values::{Value, Values};
@@ -288,9 +289,24 @@ fn parse_decision_table(scope: &Scope, decision_table: &DecisionTable) -> Result
       component_names.push(dmntk_feel_parser::parse_name(scope, name, false)?);
     }
   }
+  // a decision table must have at least one output clause,
+  // and every rule must have exactly one entry for each input and output clause
+  if output_values_nodes.is_empty() {
+    return Err(err_decision_table_without_output());
+  }
   // parse all rules
   let mut parsed_rules = vec![];
   for rule in &decision_table.rules {
+    if rule.input_entries.len() != input_expressions_and_values.len() {
+      return Err(err_decision_table_rule_size_mismatch(
+        rule.input_entries.len(),
+        "input",
+        input_expressions_and_values.len(),
+      ));
+    }
+    if rule.output_entries.len() != output_values_nodes.len() {
+      return Err(err_decision_table_rule_size_mismatch(rule.output_entries.len(), "output", output_values_nodes.len()));
+    }
     // parse input clause
     let mut input_entries_evaluators = vec![];
     for (i, (input_expression, input_values)) in input_expressions_and_values.iter().enumerate() {
